@@ -33,6 +33,12 @@ pub struct Policy {
     pub uniform: Option<usize>,
 }
 
+thread_local! {
+    /// A counter the harness side of an execution may advance (bytes a caller's writer has received
+    /// so far); sampled by the transport at the moment the client asks beyond a pause.
+    pub static PROBE: std::cell::Cell<usize> = const { std::cell::Cell::new(0) };
+}
+
 #[derive(Clone, Debug)]
 pub struct Script {
     pub wire: Arc<Vec<u8>>,
@@ -83,6 +89,8 @@ pub struct Shared {
     pub transient_fired: bool,
     /// the client asked for bytes beyond a pause (in reality: it would now block for ever)
     pub asked_beyond_pause: bool,
+    /// value of the thread's PROBE counter when the client first asked beyond the pause
+    pub probe_at_pause: Option<usize>,
     pub dropped: bool,
     /// written.len() at the time of each read, (wire position, bytes written so far)
     pub written_at_read: Vec<(usize, usize)>,
@@ -171,6 +179,9 @@ impl Read for Scripted {
                     Ok(0)
                 }
                 End::Pause => {
+                    if !s.asked_beyond_pause {
+                        s.probe_at_pause = Some(PROBE.with(|p| p.get()));
+                    }
                     s.asked_beyond_pause = true;
                     if self.log_events {
                         s.events.push(Event::E("pause"));
